@@ -28,4 +28,8 @@ MUTANTS = [
       "        if sub_events:\n            e.th_info = handle_thd_data(parser, sub_events)",
       "        if sub_events:\n            e.th_info = handle_thd_data(parser, sub_events)\n        else:\n            e.th_info = None"),
     N("C20", "sorted in place", DY, "    map_a = sorted(map_a, key=lambda x: x.load_addr)\n", "    map_a = sorted(map_a, key=lambda image: image.load_addr)\n"),
+    F("C20", "real-fault decoder reads the last record it is handed", MA,
+      "def handle_real_fault_address(addr_type, parser, events):\n    args = events[0].values", "def handle_real_fault_address(addr_type, parser, events):\n    args = events[len(events) - 1].values", "R1"),
+    N("C20", "real-fault decoder names the first record", MA,
+      "def handle_real_fault_address(addr_type, parser, events):\n    args = events[0].values", "def handle_real_fault_address(addr_type, parser, events):\n    first = events[0]\n    args = first.values"),
 ]
